@@ -1,12 +1,13 @@
 /-
 C07 — open-path offsetting: theorems about the control frame (`ClipperVerif/Model/OffsetFrame.lean`).
 
-Proved here: index safety of `OffsetPolygon/OffsetOpenJoined/OffsetOpenPath` for paths with at least one point
-and the out-of-range read they commit on an empty path; the normal reversal of `OffsetOpenPath` hands the
-backward pass the normals of the reversed path; for groups that are not `Polygon` the whole frame is the same for
-+delta and -delta; locality of the frame — false on the current tree (two witnesses), true under hypotheses that
-exclude the two state leaks.  The shape of the stroke itself (width, caps) is decided at spec level by
-`STROKECHECK` (`ClipperVerif/Spec/Offset.lean`, harness/C07.cpp), not by a theorem.
+Proved here: index safety of `OffsetPolygon/OffsetOpenJoined/OffsetOpenPath` for paths with at least one point,
+empty paths are skipped without any read, hence the whole frame is fault free for every input (`frame_safe`);
+the normal reversal of `OffsetOpenPath` hands the backward pass the normals of the reversed path; for groups that
+are not `Polygon` the whole frame is the same for +delta and -delta, and an insignificant delta returns nothing
+for them; locality of the frame (`frame_local`): the calls issued for a path depend only on that path and on its
+group's parameters.  The shape of the stroke itself (width, caps) is decided at spec level by `STROKECHECK`
+(`ClipperVerif/Spec/Offset.lean`, harness/C07.cpp), not by a theorem.
 -/
 import ClipperVerif.Lemmas.OffsetFrame
 namespace Clipper.Props.C07
@@ -39,30 +40,66 @@ theorem offsetByEndType_safe (g : Geo N) (jt : JoinType) (et : EndType) (tl gd :
     · exact hs.2.1
     · exact hs.2.2
 
-/-- …hence the per-path body of `DoGroupOffset` never faults on a non-empty path, whatever `end_type_` is. -/
-theorem doPath_safe (g : Geo N) (jt : JoinType) (grpEt et : EndType) (tl gd : Rat) (path : Path)
-    (h : 1 ≤ path.length) : ∃ r, doPath g jt grpEt tl gd et path = .ok r := by
-  unfold doPath
-  split
-  · exact ⟨_, rfl⟩
-  · obtain ⟨es, he⟩ := offsetByEndType_safe g jt (endTypeFor jt grpEt et path.length) tl gd path h
-    simp only [he]
+/-- `DoGroupOffset` skips an empty path: no read, no primitive call, `end_type_` untouched. -/
+theorem empty_path_no_call (g : Geo N) (jt : JoinType) (grpEt et : EndType) (tl gd : Rat) :
+    doPath g jt grpEt tl gd et [] = .ok (et, []) := rfl
+
+/-- The per-path body of `DoGroupOffset` never reads out of range — for EVERY path (empty, single point, two or
+more points) and whatever `end_type_` is. -/
+theorem doPath_safe (g : Geo N) (jt : JoinType) (grpEt et : EndType) (tl gd : Rat) (path : Path) :
+    ∃ r, doPath g jt grpEt tl gd et path = .ok r := by
+  match path with
+  | [] => exact ⟨_, rfl⟩
+  | [pt] => exact ⟨_, rfl⟩
+  | a :: b :: rest =>
+    obtain ⟨es, he⟩ := offsetByEndType_safe g jt (endTypeFor jt grpEt (a :: b :: rest).length) tl gd (a :: b :: rest)
+      (by simp)
+    simp only [doPath, he]
     exact ⟨_, rfl⟩
 
-/-- The fault the code commits: on an EMPTY path `OffsetOpenPath` reads `path[0]` (cap) and
-`OffsetOpenJoined` reads `norms[0]` of the empty normal vector; `OffsetPolygon` reads nothing. -/
-theorem empty_path_faults (g : Geo N) (jt : JoinType) (et : EndType) (tl gd : Rat) :
+theorem doPaths_safe (g : Geo N) (jt : JoinType) (grpEt : EndType) (tl gd : Rat) (ps : List Path) :
+    ∀ et, ∃ r, doPaths g jt grpEt tl gd et ps = .ok r := by
+  induction ps with
+  | nil => intro et; exact ⟨_, rfl⟩
+  | cons p ps ih =>
+    intro et
+    obtain ⟨⟨et1, es1⟩, h1⟩ := doPath_safe g jt grpEt et tl gd p
+    obtain ⟨⟨et2, es2⟩, h2⟩ := ih et1
+    simp only [doPaths, h1, h2]
+    exact ⟨_, rfl⟩
+
+theorem doGroups_safe (g : Geo N) (arc : Rat) (groups : List Group) :
+    ∀ st, ∃ r, doGroups g arc st groups = .ok r := by
+  induction groups with
+  | nil => intro st; exact ⟨_, rfl⟩
+  | cons grp gs ih =>
+    intro st
+    obtain ⟨⟨et1, es1⟩, h1⟩ := doPaths_safe g grp.jt grp.et (groupSetup arc grp st).tempLim
+      (groupSetup arc grp st).groupDelta grp.paths (groupSetup arc grp st).et
+    obtain ⟨⟨st2, es2⟩, h2⟩ := ih { groupSetup arc grp st with et := et1 }
+    simp only [doGroups, doGroupOffset, h1, h2]
+    exact ⟨_, rfl⟩
+
+/-- FULL index safety of the frame: for every list of groups (any mixture of end types, empty paths, single
+points, 2-point paths) and every delta, `ExecuteInternal` issues no out-of-range `path[·]` / `norms[·]` read. -/
+theorem frame_safe (g : Geo N) (prm : Params) (groups : List Group) (delta : Rat) :
+    ∃ f, executeInternal g prm groups delta = .ok f := by
+  unfold executeInternal
+  split
+  · exact ⟨_, rfl⟩
+  · split
+    · exact ⟨_, rfl⟩
+    · obtain ⟨⟨st, es⟩, h⟩ := doGroups_safe g prm.arcTolerance groups (initSt prm delta)
+      simp only [h]
+      exact ⟨_, rfl⟩
+
+/-- The per-path primitives themselves would still read out of range on an empty path (this is why the skip in
+`DoGroupOffset` is needed): `OffsetOpenPath` reads `path[0]`, `OffsetOpenJoined` reads `norms[0]`. -/
+theorem empty_path_primitives (g : Geo N) (jt : JoinType) (et : EndType) (tl gd : Rat) :
     offsetOpenPath g jt et tl gd [] (buildNormals g []) = .error .oob
     ∧ offsetOpenJoined g jt tl gd [] (buildNormals g []) = .error .oob
     ∧ offsetPolygon g jt tl gd [] (buildNormals g []) = .ok [.endPath] := by
   refine ⟨rfl, rfl, rfl⟩
-
-/-- So `open_indices_safe` is false without its hypothesis: an empty path in a group whose end type is Butt,
-Square, Round or Joined makes `DoGroupOffset` read out of range (DESIGN.md §9 item 6; Joined is the same defect
-through `norms[0]`). -/
-theorem empty_path_group_faults (g : Geo N) (jt : JoinType) (grpEt : EndType) (tl gd : Rat)
-    (h : grpEt ≠ .polygon) : doPath g jt grpEt tl gd grpEt [] = .error .oob := by
-  cases grpEt <;> first | exact absurd rfl h | rfl
 
 /-! ### normal reversal -/
 
@@ -142,7 +179,7 @@ theorem checkReverse_false (groups : List Group) (h : ∀ grp ∈ groups, grp.et
   induction groups with
   | nil => rfl
   | cons grp gs ih =>
-    simp only [checkReverseOrientation, h grp (by simp), if_false]
+    simp only [checkReverseOrientation, h grp (by simp), false_and, if_false]
     exact ih (fun x hx => h x (by simp [hx]))
 
 /-- For groups whose end type is not `Polygon` (Joined, Butt, Square, Round) the frame — every primitive call
@@ -175,34 +212,132 @@ theorem open_delta_symm (g : Geo N) (prm : Params) (groups : List Group) (delta 
 
 example : ∀ grp ∈ [mkGroup [[⟨0, 0⟩, ⟨10, 0⟩, ⟨10, 10⟩]] .round .butt], grp.et ≠ .polygon := by decide
 
+/-- For groups whose end type is not `Polygon` an insignificant delta (`|delta| < 0.5`) hands nothing to the
+clean-up union: the result is empty (the stroke of width < 1 has no area). -/
+theorem small_delta_open_nothing (g : Geo N) (prm : Params) (groups : List Group) (delta : Rat)
+    (h : ∀ grp ∈ groups, grp.et ≠ .polygon) (hd : rabs delta < 1 / 2) :
+    executeInternal g prm groups delta = .ok none := by
+  have hf : groups.filter (fun grp => grp.et = .polygon) = [] := by
+    rw [List.filter_eq_nil_iff]
+    intro grp hg
+    simpa using h grp hg
+  simp [executeInternal, hd, hf]
+
 /-! ### locality of the frame -/
 
-/-- the signed delta a group would use if it depended on the group and the call's delta only -/
-def localGd (delta : Rat) (grp : Group) : Rat :=
-  if grp.et = .polygon then (if grp.isReversed then -delta else delta) else rabs delta
+/-- the emits of a computation, the state dropped -/
+def sndE : Except Fault (α × β) → Except Fault β
+  | .error e => .error e
+  | .ok r => .ok r.2
 
-/-- what one path would emit if nothing but the path and its group's parameters mattered:
+/-- the signed delta a group uses: a function of the group and of the call's delta only -/
+def localGd (delta : Rat) (grp : Group) : Rat :=
+  if grp.et = .polygon then
+    (if grp.isReversed then -(if grp.lowest.isSome then delta else rabs delta)
+     else (if grp.lowest.isSome then delta else rabs delta))
+  else rabs delta
+
+/-- what one path emits when nothing but the path and its group's parameters matter:
 `end_type_` is the group's end type on entry -/
 def localPath (g : Geo N) (tl delta : Rat) (grp : Group) (path : Path) : Except Fault (List (Emit N)) :=
-  match doPath g grp.jt grp.et tl (localGd delta grp) grp.et path with
-  | .error e => .error e
-  | .ok (_, es) => .ok es
+  sndE (doPath g grp.jt grp.et tl (localGd delta grp) grp.et path)
 
 def localFrame (g : Geo N) (prm : Params) (groups : List Group) (delta : Rat) : Except Fault (List (Emit N)) :=
   mapE (fun grp => mapE (localPath g (initSt prm delta).tempLim delta grp) grp.paths) groups
 
 /-- the emits of the real frame -/
 def realFrame (g : Geo N) (prm : Params) (groups : List Group) (delta : Rat) : Except Fault (List (Emit N)) :=
-  match doGroups g prm.arcTolerance (initSt prm delta) groups with
-  | .error e => .error e
-  | .ok (_, es) => .ok es
+  sndE (doGroups g prm.arcTolerance (initSt prm delta) groups)
 
-/-- FULL STATEMENT (C07 "does not depend on which other paths are offset in the same call", C12): the calls
+/-- C07 "does not depend on which other paths are offset in the same call" (and C12) at frame level: the calls
 issued for a path depend only on that path and on its group's parameters. -/
 def FrameLocal (g : Geo N) (prm : Params) (groups : List Group) (delta : Rat) : Prop :=
   realFrame g prm groups delta = localFrame g prm groups delta
 
-/-- a concrete geometry for witnesses: unnormalised right-hand normals, sign of cross / dot as sine / cosine -/
+/-- what a path emits does not depend on the `end_type_` left behind by earlier paths -/
+theorem doPath_snd (g : Geo N) (jt : JoinType) (grpEt : EndType) (tl gd : Rat) (et et' : EndType) (path : Path) :
+    sndE (doPath g jt grpEt tl gd et path) = sndE (doPath g jt grpEt tl gd et' path) := by
+  match path with
+  | [] => rfl
+  | [pt] => rfl
+  | a :: b :: rest => rfl
+
+theorem doPaths_local (g : Geo N) (jt : JoinType) (grpEt : EndType) (tl gd : Rat) (ps : List Path) :
+    ∀ et, sndE (doPaths g jt grpEt tl gd et ps) = mapE (fun p => sndE (doPath g jt grpEt tl gd grpEt p)) ps := by
+  induction ps with
+  | nil => intro et; rfl
+  | cons p ps ih =>
+    intro et
+    simp only [doPaths, mapE]
+    rw [← doPath_snd g jt grpEt tl gd et grpEt p]
+    cases doPath g jt grpEt tl gd et p with
+    | error e => rfl
+    | ok r =>
+      obtain ⟨et1, es1⟩ := r
+      rw [← ih et1]
+      simp only [sndE]
+      cases doPaths g jt grpEt tl gd et1 ps with
+      | error e => rfl
+      | ok r2 => rfl
+
+theorem groupSetup_local (arc : Rat) (grp : Group) (st : St) :
+    (groupSetup arc grp st).delta = st.delta ∧ (groupSetup arc grp st).tempLim = st.tempLim
+      ∧ (groupSetup arc grp st).groupDelta = localGd st.delta grp ∧ (groupSetup arc grp st).et = grp.et := by
+  refine ⟨rfl, rfl, ?_, rfl⟩
+  simp only [groupSetup, localGd]
+
+theorem doGroupOffset_local (g : Geo N) (arc : Rat) (grp : Group) (st : St) :
+    sndE (doGroupOffset g arc grp st) = mapE (localPath g st.tempLim st.delta grp) grp.paths
+    ∧ ∀ r, doGroupOffset g arc grp st = .ok r → r.1.delta = st.delta ∧ r.1.tempLim = st.tempLim := by
+  obtain ⟨e1, e2, e3, e4⟩ := groupSetup_local arc grp st
+  have hl : localPath g st.tempLim st.delta grp =
+      fun p => sndE (doPath g grp.jt grp.et st.tempLim (localGd st.delta grp) grp.et p) := by funext p; rfl
+  have hloc := doPaths_local g grp.jt grp.et st.tempLim (localGd st.delta grp) grp.paths grp.et
+  unfold doGroupOffset
+  simp only
+  rw [e2, e3, e4, hl, ← hloc]
+  cases doPaths g grp.jt grp.et st.tempLim (localGd st.delta grp) grp.et grp.paths with
+  | error e => exact ⟨rfl, by intro r hr; cases hr⟩
+  | ok r =>
+    refine ⟨rfl, ?_⟩
+    intro r' hr
+    injection hr with hr
+    rw [← hr]
+    exact ⟨e1, e2⟩
+
+theorem doGroups_local (g : Geo N) (arc : Rat) (tl delta : Rat) (groups : List Group) :
+    ∀ st : St, st.delta = delta → st.tempLim = tl →
+      sndE (doGroups g arc st groups) = mapE (fun grp => mapE (localPath g tl delta grp) grp.paths) groups := by
+  induction groups with
+  | nil => intro st _ _; rfl
+  | cons grp gs ih =>
+    intro st hd ht
+    obtain ⟨hs, hk⟩ := doGroupOffset_local g arc grp st
+    have hs' : mapE (localPath g tl delta grp) grp.paths = sndE (doGroupOffset g arc grp st) := by
+      rw [hs, hd, ht]
+    simp only [doGroups, mapE]
+    rw [hs']
+    cases hgo : doGroupOffset g arc grp st with
+    | error e => rfl
+    | ok r =>
+      obtain ⟨st1, es1⟩ := r
+      obtain ⟨k1, k2⟩ := hk _ hgo
+      rw [← ih st1 (k1.trans hd) (k2.trans ht)]
+      simp only [sndE]
+      cases doGroups g arc st1 gs with
+      | error e => rfl
+      | ok r2 => rfl
+
+/-- `frame_local` (FULL): for every list of groups and every delta, every path is offset exactly as its own
+group's parameters dictate — same primitives, same arguments, in the same order — whatever other paths and
+groups take part in the call.  (Before the repairs bd5ab48 / 058ce9d this was false: `end_type_` and `delta_`
+leaked from one path / group to the next.) -/
+theorem frame_local (g : Geo N) (prm : Params) (groups : List Group) (delta : Rat) :
+    FrameLocal g prm groups delta := by
+  unfold FrameLocal realFrame localFrame
+  exact doGroups_local g prm.arcTolerance (initSt prm delta).tempLim delta groups (initSt prm delta) rfl rfl
+
+/-- a concrete geometry for examples: unnormalised right-hand normals, sign of cross / dot as sine / cosine -/
 def geoZ : Geo Pt where
   unitNormal a b := ⟨b.y - a.y, a.x - b.x⟩
   neg := Pt.neg
@@ -215,144 +350,18 @@ def emitCount : Except Fault (List (Emit Pt)) → Nat
   | .ok es => es.length
   | .error _ => 0
 
-/-- `frame_local` is FALSE on the current tree, witness 1 (DESIGN.md §9 item 3): in a Joined group the
-2-point path {(0,0),(100,0)} sets `end_type_` to Square, and the following triangle
-{(1000,1000),(1100,1000),(1100,1100)} is offset by `OffsetOpenPath` (5 emits) instead of `OffsetOpenJoined` (8). -/
-theorem frame_local_false_endtype :
-    ¬ FrameLocal geoZ prm0
-        [mkGroup [[⟨0, 0⟩, ⟨100, 0⟩], [⟨1000, 1000⟩, ⟨1100, 1000⟩, ⟨1100, 1100⟩]] .miter .joined] 10 := by
-  intro h
-  have := congrArg emitCount h
-  revert this
+/-- the former witnesses, now instances of the theorem: in the Joined group {2-point path, triangle} the triangle
+is offset by `OffsetOpenJoined` (3 emits for the segment with its square caps + 8 for the triangle); after a point-less Polygon group
+the square is shrunk with `group_delta_ = -10` -/
+example : emitCount (realFrame geoZ prm0
+    [mkGroup [[⟨0, 0⟩, ⟨100, 0⟩], [⟨1000, 1000⟩, ⟨1100, 1000⟩, ⟨1100, 1100⟩]] .miter .joined] 10) = 11 := by
   decide +kernel
 
-/-- witness 2 (DESIGN.md §9 item 4): a Polygon group without any point replaces `delta_` by its absolute
-value, so the next group's shrink by 10 is carried out as an inflate (`group_delta_ = +10`). -/
-theorem frame_local_false_delta :
-    ¬ FrameLocal geoZ prm0
-        [mkGroup [[]] .miter .polygon, mkGroup [[⟨0, 0⟩, ⟨100, 0⟩, ⟨100, 100⟩, ⟨0, 100⟩]] .miter .polygon] (-10) := by
-  intro h
-  have := congrArg (fun r => match r with
-    | .ok es => es.map (fun (e : Emit Pt) => match e with | Emit.miter _ _ _ _ gd => gd | Emit.concave _ _ _ gd => gd | _ => (0 : Rat))
-    | .error _ => []) h
-  revert this
+example : (match realFrame geoZ prm0
+      [mkGroup [[]] .miter .polygon, mkGroup [[⟨0, 0⟩, ⟨100, 0⟩, ⟨100, 100⟩, ⟨0, 100⟩]] .miter .polygon] (-10) with
+    | .ok es => es.map (fun (e : Emit Pt) => match e with
+        | Emit.miter _ _ _ _ gd => gd | Emit.concave _ _ _ gd => gd | _ => (0 : Rat))
+    | .error _ => []) = [-10, -10, -10, -10, 0] := by
   decide +kernel
-
-theorem endTypeFor_same (jt : JoinType) (grpEt : EndType) (n : Nat) (h : ¬ (n = 2 ∧ grpEt = .joined)) :
-    endTypeFor jt grpEt grpEt n = grpEt := by
-  simp [endTypeFor, h]
-
-theorem doPath_et (g : Geo N) (jt : JoinType) (grpEt : EndType) (tl gd : Rat) (path : Path)
-    (h : ¬ (path.length = 2 ∧ grpEt = .joined)) (r : EndType × List (Emit N))
-    (hr : doPath g jt grpEt tl gd grpEt path = .ok r) : r.1 = grpEt := by
-  unfold doPath at hr
-  split at hr
-  · injection hr with hr; rw [← hr]
-  · rw [endTypeFor_same jt grpEt path.length h] at hr
-    simp only at hr
-    split at hr
-    · cases hr
-    · injection hr with hr; rw [← hr]
-
-theorem doPaths_local (g : Geo N) (jt : JoinType) (grpEt : EndType) (tl gd : Rat) (ps : List Path)
-    (h : ∀ p ∈ ps, ¬ (p.length = 2 ∧ grpEt = .joined)) :
-    doPaths g jt grpEt tl gd grpEt ps =
-      match mapE (fun p => match doPath g jt grpEt tl gd grpEt p with
-                  | .error e => .error e
-                  | .ok (_, es) => .ok es) ps with
-      | .error e => .error e
-      | .ok es => .ok (grpEt, es) := by
-  induction ps with
-  | nil => rfl
-  | cons p ps ih =>
-    simp only [doPaths, mapE]
-    cases hdp : doPath g jt grpEt tl gd grpEt p with
-    | error e => rfl
-    | ok r =>
-      obtain ⟨et1, es1⟩ := r
-      have het : et1 = grpEt := doPath_et g jt grpEt tl gd p (h p (by simp)) _ hdp
-      rw [het]
-      simp only
-      rw [ih (fun x hx => h x (by simp [hx]))]
-      cases mapE (fun p => match doPath g jt grpEt tl gd grpEt p with
-                  | .error e => .error e
-                  | .ok (_, es) => .ok es) ps <;> rfl
-
-theorem groupSetup_local (arc : Rat) (grp : Group) (st : St)
-    (h : grp.et = .polygon → grp.lowest.isSome = true) :
-    (groupSetup arc grp st).delta = st.delta ∧ (groupSetup arc grp st).tempLim = st.tempLim
-      ∧ (groupSetup arc grp st).groupDelta = localGd st.delta grp ∧ (groupSetup arc grp st).et = grp.et := by
-  by_cases hp : grp.et = .polygon
-  · have := h hp
-    cases hl : grp.lowest with
-    | none => rw [hl] at this; cases this
-    | some i => simp [groupSetup, localGd, hp, hl]
-  · simp [groupSetup, localGd, hp]
-
-theorem doGroupOffset_local (g : Geo N) (arc : Rat) (grp : Group) (st : St)
-    (h1 : ∀ p ∈ grp.paths, ¬ (p.length = 2 ∧ grp.et = .joined))
-    (h2 : grp.et = .polygon → grp.lowest.isSome = true) :
-    ∃ st1 : St, st1.delta = st.delta ∧ st1.tempLim = st.tempLim ∧
-      doGroupOffset g arc grp st =
-        match mapE (localPath g st.tempLim st.delta grp) grp.paths with
-        | .error e => .error e
-        | .ok es => .ok (st1, es) := by
-  obtain ⟨e1, e2, e3, e4⟩ := groupSetup_local arc grp st h2
-  refine ⟨{ groupSetup arc grp st with et := grp.et }, e1, e2, ?_⟩
-  have hl : localPath g st.tempLim st.delta grp =
-      fun p => match doPath g grp.jt grp.et st.tempLim (localGd st.delta grp) grp.et p with
-        | .error e => .error e
-        | .ok (_, es) => .ok es := by funext p; rfl
-  unfold doGroupOffset
-  simp only
-  rw [e2, e3, e4, doPaths_local g grp.jt grp.et st.tempLim (localGd st.delta grp) grp.paths h1, hl]
-  cases mapE (fun p => match doPath g grp.jt grp.et st.tempLim (localGd st.delta grp) grp.et p with
-        | .error e => .error e
-        | .ok (_, es) => .ok es) grp.paths <;> rfl
-
-theorem doGroups_local (g : Geo N) (arc : Rat) (tl delta : Rat) (groups : List Group)
-    (h1 : ∀ grp ∈ groups, ∀ p ∈ grp.paths, ¬ (p.length = 2 ∧ grp.et = .joined))
-    (h2 : ∀ grp ∈ groups, grp.et = .polygon → grp.lowest.isSome = true) :
-    ∀ st : St, st.delta = delta → st.tempLim = tl →
-      (match doGroups g arc st groups with
-        | .error e => Except.error e
-        | .ok (_, es) => .ok es)
-      = mapE (fun grp => mapE (localPath g tl delta grp) grp.paths) groups := by
-  induction groups with
-  | nil => intro st _ _; rfl
-  | cons grp gs ih =>
-    intro st hd ht
-    obtain ⟨st1, hd1, ht1, hgo⟩ := doGroupOffset_local g arc grp st (h1 grp (by simp)) (h2 grp (by simp))
-    simp only [doGroups, mapE]
-    rw [hgo, hd, ht]
-    cases mapE (localPath g tl delta grp) grp.paths with
-    | error e => rfl
-    | ok es1 =>
-      simp only
-      have := ih (fun x hx => h1 x (by simp [hx])) (fun x hx => h2 x (by simp [hx])) st1
-        (hd1.trans hd) (ht1.trans ht)
-      rw [← this]
-      cases doGroups g arc st1 gs with
-      | error e => rfl
-      | ok r => rfl
-
-/-- `frame_local`, the part that holds on the current tree: when no Joined group contains a 2-point path and
-every Polygon group has at least one point, every path is offset exactly as its own group's parameters
-dictate (same primitives, same arguments, same faults).  Missing for the full statement: the two excluded
-situations, which are the state leaks `end_type_` (not restored after the 2-point override) and `delta_`
-(overwritten by `std::abs(delta_)`); the proved negations above are their witnesses. -/
-theorem frame_local_partial (g : Geo N) (prm : Params) (groups : List Group) (delta : Rat)
-    (h1 : ∀ grp ∈ groups, ∀ p ∈ grp.paths, ¬ (p.length = 2 ∧ grp.et = .joined))
-    (h2 : ∀ grp ∈ groups, grp.et = .polygon → grp.lowest.isSome = true) :
-    FrameLocal g prm groups delta := by
-  unfold FrameLocal realFrame localFrame
-  exact doGroups_local g prm.arcTolerance (initSt prm delta).tempLim delta groups h1 h2 (initSt prm delta) rfl rfl
-
-/-- non-vacuity: a Joined group of two triangles and a Polygon group satisfy the hypotheses -/
-example :
-    let groups := [mkGroup [[⟨0, 0⟩, ⟨100, 0⟩, ⟨50, 80⟩], [⟨500, 0⟩, ⟨600, 0⟩, ⟨550, 80⟩]] .miter .joined,
-                   mkGroup [[⟨0, 0⟩, ⟨10, 0⟩, ⟨10, 10⟩]] .round .polygon]
-    (∀ grp ∈ groups, ∀ p ∈ grp.paths, ¬ (p.length = 2 ∧ grp.et = .joined))
-      ∧ (∀ grp ∈ groups, grp.et = .polygon → grp.lowest.isSome = true) := by decide
 
 end Clipper.Props.C07
